@@ -6,6 +6,7 @@
 //         prob <variant> <texthex|-> <strong 0|1>
 //         xrff <variant> <texthex|-> <filter>
 //         line <texthex|-> <delim> <trim> <keep>
+//         path <variant> <read|read_csv|read_xrff|prob> <file name>     (reading BY FILE NAME)
 //         (<variant> is for the model only and is ignored here)
 // output: OK ret=<n> COLS=<name>:<dom>:<state>,..;.. CLS=<label>=<id>,.. EX=<out>|<in>,..;..
 //            [VARS=<name>:<id>:<cat>;.. RUN=<v>,..;..]  [DOM <A-token> <I-token>]
@@ -191,8 +192,106 @@ std::string show_dom(const std::string &text)
   return "DOM " + a + " " + i;
 }
 
+std::size_t open_fds()
+{
+  std::size_t n(0);
+  for (const auto &e : std::filesystem::directory_iterator("/proc/self/fd"))
+  {
+    (void)e;
+    ++n;
+  }
+  return n;
+}
+
+std::string slurp(const std::string &fn)
+{
+  std::ifstream f(fn, std::ios::binary);
+  std::ostringstream ss;
+  ss << f.rdbuf();
+  return ss.str();
+}
+
+std::string show_problem(src_problem &prob, bool strong)
+{
+  const dataframe &d(prob.data());
+  std::string out("OK ret=" + std::to_string(d.size()) + " " + show_df(d));
+  std::vector<const variable *> vars;
+  for (const auto &s : prob.sset.symbols_)
+    if (const auto *v = dynamic_cast<const variable *>(s.get()))
+      vars.push_back(v);
+  const category_set cs(d.columns, strong ? typing::strong : typing::weak);
+  out += " VARS=";
+  for (const auto *v : vars)
+  {
+    // category as assigned by category_set (symbol_set renumbers the undefined one)
+    long cat(static_cast<long>(v->category()));
+    for (std::size_t i(1); i < d.columns.size(); ++i)
+    {
+      const auto nm(d.columns[i].name.empty() ? "X" + std::to_string(i) : d.columns[i].name);
+      if (nm == v->name() && cs.column(i).category == undefined_category) cat = -1;
+    }
+    out += hex(v->name()) + ":" + std::to_string(v->var_) + ":" + std::to_string(cat) + ";";
+  }
+  out += " RUN=";
+  std::size_t k(0);
+  for (const auto &e : d)
+  {
+    if (k++ >= 3) break;
+    for (const auto *v : vars)
+    {
+      i_mep ind({gene(std::pair<symbol *, std::vector<index_t>>{const_cast<variable *>(v), {}})});
+      ind.best_ = locus{0, v->category()};
+      out += show(run(ind, e.input)) + ",";
+    }
+    out += ";";
+  }
+  return out;
+}
+
+// Reading BY FILE NAME: path <variant> <api> <file>   api: read | read_csv | read_xrff | prob
+// The number of open descriptors is compared before/after the call (FDLEAK=<delta> when it grew).
+std::string run_path(const std::vector<std::string> &w)
+{
+  const std::string api(w[2]), fn(w[3]);
+  const bool xml(fn.size() > 5 && (fn.substr(fn.size() - 5) == ".xrff" || fn.substr(fn.size() - 4) == ".xml"));
+  const std::string dom(api == "read_xrff" || (xml && api != "read_csv") ? " " + show_dom(slurp(fn)) : "");
+  const auto before(open_fds());
+  std::string out;
+  try
+  {
+    if (api == "prob")
+    {
+      src_problem prob{std::filesystem::path(fn)};
+      out = xml ? "OK ret=" + std::to_string(prob.data().size()) + " " + show_df(prob.data())
+                : show_problem(prob, false);
+    }
+    else
+    {
+      dataframe d;
+      std::size_t n(0);
+      if (api == "read") n = d.read(std::filesystem::path(fn));
+      else if (api == "read_csv") n = d.read_csv(std::filesystem::path(fn), dataframe::params());
+      else if (api == "read_xrff") n = d.read_xrff(std::filesystem::path(fn), dataframe::params());
+      else return "BADLINE";
+      out = "OK ret=" + std::to_string(n) + " " + show_df(d);
+    }
+  }
+  catch (const exception::data_format &) { out = "EXN data_format"; }
+  catch (const exception::insufficient_data &) { out = "EXN insufficient_data"; }
+  catch (const std::invalid_argument &) { out = "EXN invalid_argument"; }
+  catch (const std::out_of_range &) { out = "EXN out_of_range"; }
+  catch (const std::bad_variant_access &) { out = "EXN bad_variant_access"; }
+  catch (const std::bad_alloc &) { out = "EXN bad_alloc"; }
+  catch (const std::exception &e) { out = std::string("EXN other:") + typeid(e).name(); }
+  const auto after(open_fds());
+  if (after > before) out += " FDLEAK=" + std::to_string(after - before);
+  return out + dom;
+}
+
 std::string run_line(const std::vector<std::string> &w)
 {
+  if (w[0] == "path" && w.size() == 4)
+    return run_path(w);
   if (w[0] == "csv" && w.size() == 8)
   {
     std::istringstream is(unhex(w[2]));
@@ -213,39 +312,7 @@ std::string run_line(const std::vector<std::string> &w)
   {
     std::istringstream is(unhex(w[2]));
     src_problem prob(is, w[3] == "1" ? typing::strong : typing::weak);
-    const dataframe &d(prob.data());
-    std::string out("OK ret=" + std::to_string(d.size()) + " " + show_df(d));
-    std::vector<const variable *> vars;
-    for (const auto &s : prob.sset.symbols_)
-      if (const auto *v = dynamic_cast<const variable *>(s.get()))
-        vars.push_back(v);
-    const category_set cs(d.columns, w[3] == "1" ? typing::strong : typing::weak);
-    out += " VARS=";
-    for (const auto *v : vars)
-    {
-      // category as assigned by category_set (symbol_set renumbers the undefined one)
-      long cat(static_cast<long>(v->category()));
-      for (std::size_t i(1); i < d.columns.size(); ++i)
-      {
-        const auto nm(d.columns[i].name.empty() ? "X" + std::to_string(i) : d.columns[i].name);
-        if (nm == v->name() && cs.column(i).category == undefined_category) cat = -1;
-      }
-      out += hex(v->name()) + ":" + std::to_string(v->var_) + ":" + std::to_string(cat) + ";";
-    }
-    out += " RUN=";
-    std::size_t k(0);
-    for (const auto &e : d)
-    {
-      if (k++ >= 3) break;
-      for (const auto *v : vars)
-      {
-        i_mep ind({gene(std::pair<symbol *, std::vector<index_t>>{const_cast<variable *>(v), {}})});
-        ind.best_ = locus{0, v->category()};
-        out += show(run(ind, e.input)) + ",";
-      }
-      out += ";";
-    }
-    return out;
+    return show_problem(prob, w[3] == "1");
   }
   if (w[0] == "xrff" && w.size() == 4)
   {
